@@ -38,6 +38,8 @@ let ann_of = function
   | L [A "c"; c] -> LCode (n_of_int (int_ c))
   | L [A "p"; p] -> LPath (str p)
   | L [A "i"; neg] -> LInt (bool_ neg)
+  | L [A "i"; neg; v] -> LIntV (bool_ neg, str v)
+  | L [A "v"; v] -> LVal (str v)
   | _ -> raise (Parse_error "ann")
 
 let rec tree_of = function
@@ -114,7 +116,7 @@ let () =
       verdict ~agree:false ~spec:false ~kf:"-"
         ~detail:(if what = "argmod" then "the call modified a request value passed to it"
                  else "a value returned by an earlier call changed when the client was used again")
-    | [L (A "c" :: A m :: path :: resp :: rest); derived; L [A "o"; reqs; out]] ->
+    | [L (A "c" :: A m :: path :: resp :: rest); derived; L (A "o" :: reqs :: out :: obs_meta)] ->
       (match rest with
        | [L (A "hist" :: _ :: steps)] -> bump (Printf.sprintf "history_%d" (min 5 (List.length steps)))
        | [L [A "ovl"]] -> bump "overlapping"
@@ -155,6 +157,16 @@ let () =
            note_nontrivial (show (List.hd sx))
        | Terr -> ());
       let agree = model_agrees meth path s o in
+      (* list results: the per-object metadata the client handed out *)
+      let meta_verdict =
+        (match obs_meta, o.o_out with
+         | [L (A "meta" :: objs)], OOk _ ->
+           let om = List.map (function L fs -> List.map str fs | _ -> raise (Parse_error "meta")) objs in
+           bump "metadata_compared";
+           if List.length om >= 2 then bump "metadata_of_2_or_more_objects";
+           Some (meta_agrees meth path s om, meta_spec_ok meth path s om, om)
+         | _ -> None) in
+      let show_meta l = String.concat " | " (List.map (fun fs -> String.concat "," (List.map show_chars fs)) l) in
       (* a panic of the go-ical decoder is recovered by the caldav client (repair c4d1d95): the
          model returns an error there.  go-vcard is called unguarded: should it ever panic, model
          and implementation both panic, the specification rejects that, and the case is reported
@@ -165,8 +177,16 @@ let () =
       (* outside the theorems' hypothesis (an HTTPClient that leaves Response.Request nil)
          only model agreement is required *)
       let spec = spec_ok meth path s o || not wf in
+      let agree, spec, mdetail =
+        (match meta_verdict with
+         | Some (ma, ms, om) when not (ma && ms) ->
+           (agree && ma, spec && ms,
+            Printf.sprintf " METADATA model=[%s] spec=[%s] observed=[%s]"
+              (show_meta (run_meta meth path s))
+              (match s with Resp r -> show_meta (spec_meta meth path r) | Terr -> "") (show_meta om))
+         | _ -> (agree, spec, "")) in
       verdict ~agree ~spec ~kf
-        ~detail:(Printf.sprintf "model=%s must_fail=%b observed=%s(reqs %d)" (show_out (model_out meth path s)) mf (show_out o.o_out) (int_of_n o.o_reqs))
+        ~detail:(Printf.sprintf "model=%s must_fail=%b observed=%s(reqs %d)" (show_out (model_out meth path s)) mf (show_out o.o_out) (int_of_n o.o_reqs) ^ mdetail)
     | [L [A "p"; _body]; L [A "d"; xml]; L [A "o"; o]] ->
       (* Response.DecodeProp(&getETag, &getLastModified) on every response of the body *)
       let b = xml_of xml in
